@@ -280,6 +280,47 @@ pub fn unwind_info_starts(d: &[u8]) -> Option<Vec<u32>> {
     Some(out)
 }
 
+/// file offset of the LC_FUNCTION_STARTS load command of a thin little-endian Mach-O file (its `datasize` field is
+/// at +12)
+pub fn macho_function_starts_cmd(bytes: &[u8]) -> Option<usize> {
+    let hdr = match rd_u32(bytes, 0, true)? {
+        0xfeedface => 28usize,
+        0xfeedfacf => 32usize,
+        _ => return None,
+    };
+    let ncmds = rd_u32(bytes, 16, true)? as usize;
+    let mut pos = hdr;
+    for _ in 0..ncmds {
+        let cmd = rd_u32(bytes, pos, true)?;
+        let size = rd_u32(bytes, pos + 4, true)? as usize;
+        if size < 8 {
+            return None;
+        }
+        if cmd == 0x26 {
+            return Some(pos);
+        }
+        pos += size;
+    }
+    None
+}
+
+/// `fpatch <offset> <hex>` lines: bytes of the fixture that are overwritten before it is loaded (derived fixtures)
+pub fn apply_patches(bytes: &[u8], ops: &[String]) -> Vec<u8> {
+    let mut v = bytes.to_vec();
+    for l in ops {
+        let w: Vec<&str> = l.split_whitespace().collect();
+        if w.len() == 3 && w[0] == "fpatch" {
+            if let Ok(off) = w[1].parse::<usize>() {
+                let data = crate::common::unhex(w[2]);
+                if off + data.len() <= v.len() {
+                    v[off..off + data.len()].copy_from_slice(&data);
+                }
+            }
+        }
+    }
+    v
+}
+
 /// the bytes of the LC_FUNCTION_STARTS load command of a (thin, little-endian) Mach-O file
 pub fn macho_function_starts_data(bytes: &[u8]) -> Option<Option<&[u8]>> {
     let magic = rd_u32(bytes, 0, true)?;
